@@ -649,6 +649,17 @@ class Engine(Executor):
         raise Unsupported("join over %s" % type(a).__name__, node)
 
     def list_method(self, recv, box, meth, args, s, node):
+        if meth in ("append", "appendleft") and self.cur_fi is self.fi and self.contract.opts.get("append_inv") and args \
+                and not self.pure:
+            # data-structure invariant of a sequence this function builds: proved for every appended element
+            for n_, v_ in list(s.env.items()):
+                if isinstance(v_, RefV) and v_.ref == recv.ref:
+                    for clause in self.contract.opts["append_inv"].get(n_, []):
+                        env_ = dict(s.env)
+                        env_["elem"] = args[0]
+                        for (s2, b) in self.eval_clause(clause, s.fork(), env_, node):
+                            self.prove(s2, b, "K4", node, "appended element satisfies the element invariant of %s: %s" % (n_, clause),
+                                       clause="append:" + clause)
         if isinstance(box, AbsBox):
             if meth in ("append", "appendleft"):
                 if box.length is not None:
